@@ -3,6 +3,8 @@
 package wallet
 
 import (
+	"github.com/btcsuite/btcd/btcutil/hdkeychain"
+	"github.com/btcsuite/btcd/chaincfg"
 	"github.com/btcsuite/btcd/wire"
 	"github.com/btcsuite/btcwallet/waddrmgr"
 	"github.com/btcsuite/btcwallet/walletdb"
@@ -69,5 +71,83 @@ func zzC08WalletDryRun(n int) {
 	got, err := ww.w.NewChangeAddress(0, scope)
 	zzW(err)
 	verifrt.Assert(got.String() == want, "c08w-next-committed-request-issues-the-restarted-wallets-address")
+	verifrt.Reach("c08w-end")
+}
+
+func zzAcctXpub(acct uint32) *hdkeychain.ExtendedKey {
+	root, err := hdkeychain.NewMaster([]byte{9, 8, 7, 6, 5, 4, 3, 2, 1, 0, 1, 2, 3, 4, 5, 6, 7, 8, 9, 0, 1, 2, 3, 4, 5, 6, 7, 8, 9, 0, 1, 2}, &chaincfg.MainNetParams)
+	zzW(err)
+	k := root
+	for _, i := range []uint32{84 + hdkeychain.HardenedKeyStart, hdkeychain.HardenedKeyStart, acct + hdkeychain.HardenedKeyStart} {
+		k, err = k.DeriveNonStandard(i) // nolint:staticcheck
+		zzW(err)
+	}
+	pub, err := k.Neuter()
+	zzW(err)
+	pub, err = pub.CloneWithVersion([]byte{0x04, 0xb2, 0x47, 0x46}) // zpub
+	zzW(err)
+	return pub
+}
+
+// ZzC08WalletImportDryRun: a dry-run account import (always rolled back) that
+// succeeds, or fails AFTER the account was created and cached (more addresses
+// requested than an account can hold); then a committed import of ANOTHER
+// account key, which receives the account number the dry run had used. The
+// running wallet and a reopened one report the same account (name, key, key
+// counts) and issue the same next address.
+func ZzC08WalletImportDryRun() {
+	ww := zzNewWalletWorld(10001, 2)
+	scope := waddrmgr.KeyScopeBIP0084
+	at := waddrmgr.WitnessPubKey
+	pubA, pubB := zzAcctXpub(5), zzAcctXpub(6)
+	n := uint32(1)
+	if verifrt.Choice(2, "dry-run-outcome") == 1 {
+		n = waddrmgr.MaxAddressesPerAccount + 1
+	}
+	_, _, _, err := ww.w.ImportAccountDryRun("preview", pubA, 0x01020304, &at, n)
+	if n == 1 {
+		zzW(err)
+		verifrt.Reach("dry-run-ok")
+	} else {
+		verifrt.Assert(err != nil, "c08w-too-many-addresses-refused")
+		verifrt.Reach("dry-run-failed")
+	}
+	props, err := ww.w.ImportAccount("hardware", pubB, 0x05060708, &at)
+	zzW(err)
+	acct := props.AccountNumber
+	fresh, err := Open(ww.db, zzWPub, nil, ww.params, 0)
+	zzW(err)
+	type view struct {
+		name, key string
+		ext, in   uint32
+		next      string
+	}
+	look := func(m *waddrmgr.Manager) (v view) {
+		_ = walletdb.Update(ww.db, func(tx walletdb.ReadWriteTx) error {
+			ns := tx.ReadWriteBucket(waddrmgrNamespaceKey)
+			sm, err := m.FetchScopedKeyManager(scope)
+			zzW(err)
+			p, err := sm.AccountProperties(ns, acct)
+			zzW(err)
+			v.name, v.ext, v.in = p.AccountName, p.ExternalKeyCount, p.InternalKeyCount
+			if p.AccountPubKey != nil {
+				v.key = p.AccountPubKey.String()
+			}
+			mas, err := sm.NextExternalAddresses(ns, acct, 1)
+			zzW(err)
+			v.next = mas[0].Address().String()
+			return walletdb.ErrDryRunRollBack
+		})
+		m2, _ := m.FetchScopedKeyManager(scope)
+		m2.InvalidateAccountCache(acct)
+		return
+	}
+	fv := look(fresh.Manager)
+	rv := look(ww.w.Manager)
+	verifrt.Assert(fv.name == "hardware" && fv.key == pubB.String(), "c08w-reopened-wallet-reports-the-imported-account")
+	verifrt.Assert(rv.name == fv.name, "c08w-account-name-running-vs-reopened")
+	verifrt.Assert(rv.key == fv.key, "c08w-account-key-running-vs-reopened")
+	verifrt.Assert(rv.ext == fv.ext && rv.in == fv.in, "c08w-key-counts-running-vs-reopened")
+	verifrt.Assert(rv.next == fv.next, "c08w-next-address-running-vs-reopened")
 	verifrt.Reach("c08w-end")
 }
